@@ -889,10 +889,10 @@ fn request(uri: &str) -> Request {
     }
 }
 
-/// Events: `write` (a file got new content; logged with the clock), `req` (one handler call: uri, host,
-/// status, body identity, content type, clock interval).  Several threads call the handlers; files are
-/// rewritten by thread 0 only *between* phases in which requests run, so that the file content during a
-/// request is known (the log says which).  Within a phase requests race with each other.
+/// Events: `write` (a file got new content; logged with the clock), `start` / `end` (one handler call:
+/// thread, uri, host, the file the target resolves to, clock window; status, body identity, content type).
+/// Several threads call the handlers; files are rewritten only *between* phases of requests (the
+/// property's "files change between requests"), within a phase requests race with each other.
 fn cmd_handlers(args: &[String]) {
     let dir = std::path::PathBuf::from(&args[0]);
     let nops: usize = args[1].parse().unwrap();
@@ -910,7 +910,8 @@ fn cmd_handlers(args: &[String]) {
     let state = Arc::new(AppState::from(config));
     let site = dir.join("site");
     let site_s = site.to_str().unwrap().to_string();
-    // (uri, host, kind, file path relative to site)   kind 0: directory route "/*" on `site`, 1: file route
+    // (uri, host, kind, what the target resolves to)   kind 0: directory route "/*" on `site`, 1: file route
+    // "/" = a directory named without the trailing slash (301), "-" = nothing (404)
     let targets: Vec<(&str, usize, u8, &str)> = vec![
         ("/a.html", 0, 0, "a.html"),
         ("/b.png", 0, 0, "b.png"),
@@ -920,8 +921,12 @@ fn cmd_handlers(args: &[String]) {
         ("/single", 0, 1, "b.png"),
         ("/single", 1, 1, "data.bin"),
         ("/empty.txt", 0, 0, "empty.txt"),
+        ("/sub", 0, 0, "/"),
+        ("/nope.txt", 1, 0, "-"),
     ];
-    let files = ["a.html", "b.png", "sub/index.html", "sub/c.css", "data.bin", "empty.txt"];
+    // the MIME type each file has by its extension (what a miss must answer)
+    let files = [("a.html", "text/html"), ("b.png", "image/png"), ("sub/index.html", "text/html"), ("sub/c.css", "text/css"),
+                 ("data.bin", "application/octet-stream"), ("empty.txt", "text/plain")];
     let mut rng = Rng::from_env();
     let seq = AtomicU64::new(1);
     let events: Mutex<Vec<(u64, Value)>> = Mutex::new(vec![]);
@@ -930,21 +935,22 @@ fn cmd_handlers(args: &[String]) {
                "lo": lo, "hi": hi, "status": status, "limit": limit, "tl": tl})
     };
     out_line(&hev("reset", 0, 0, "", 0, "", 0, 0, "", 0, 0, threads as u64));
-    let write_file = |rng: &mut Rng, f: &str| {
+    let write_file = |rng: &mut Rng, f: &str, mime: &str| {
         let size = if f == "empty.txt" { 0 } else { random_size(rng, limit + limit / 4 + 1) };
         let data = rng.bytes(size);
         std::fs::write(site.join(f), &data).unwrap();
         let s = seq.fetch_add(1, Ordering::SeqCst);
         let now = now_secs();
-        events.lock().unwrap().push((s, hev("write", s, 0, "", 0, f, size, h31(&data), "", now, now, 0)));
+        events.lock().unwrap().push((s, hev("write", s, 0, "", 0, f, size, h31(&data), mime, now, now, 0)));
     };
-    for f in files {
-        write_file(&mut rng, f);
+    for (f, m) in files {
+        write_file(&mut rng, f, m);
     }
-    let phases = (nops / 24).max(1);
+    let per_phase = 6 * threads;
+    let phases = (nops / per_phase).max(1);
     for _ in 0..phases {
         // requests race with each other, files are stable
-        let remaining = AtomicI64::new(24);
+        let remaining = AtomicI64::new(per_phase as i64);
         std::thread::scope(|sc| {
             for th in 0..threads {
                 let (state, remaining, targets, seq, events, site_s, hev) = (&state, &remaining, &targets, &seq, &events, &site_s, &hev);
@@ -955,6 +961,7 @@ fn cmd_handlers(args: &[String]) {
                         if trng.chance(1, 12) {
                             GLOBAL_CLOCK.fetch_add(1, Ordering::SeqCst);
                         }
+                        let s0 = seq.fetch_add(1, Ordering::SeqCst);
                         let lo = now_secs();
                         let st = state.clone();
                         let path = format!("{}/{}", site_s, file);
@@ -966,24 +973,30 @@ fn cmd_handlers(args: &[String]) {
                             }
                         }));
                         let hi = now_secs();
-                        let s = seq.fetch_add(1, Ordering::SeqCst);
-                        let v = match r {
+                        let s1 = seq.fetch_add(1, Ordering::SeqCst);
+                        let end = match r {
                             Ok(resp) => {
                                 let code: u16 = resp.status_code.into();
                                 let ct = resp.headers.get("Content-Type").unwrap_or("").to_string();
-                                hev("req", s, th, uri, host, file, resp.body.len(), h31(&resp.body), &ct, lo, hi, code as u64)
+                                if code == 200 {
+                                    hev("end", s1, th, uri, host, file, resp.body.len(), h31(&resp.body), &ct, lo, hi, 200)
+                                } else {
+                                    hev("end", s1, th, uri, host, file, 0, 0, "", lo, hi, code as u64)
+                                }
                             }
-                            Err(_) => hev("req", s, th, uri, host, file, 0, 0, "", lo, hi, 0),
+                            Err(_) => hev("end", s1, th, uri, host, file, 0, 0, "", lo, hi, 0),
                         };
-                        events.lock().unwrap().push((s, v));
+                        let mut ev = events.lock().unwrap();
+                        ev.push((s0, hev("start", s0, th, uri, host, file, 0, 0, "", lo, hi, 0)));
+                        ev.push((s1, end));
                     }
                 });
             }
         });
         // files change between requests; sometimes time passes
-        for f in files {
+        for (f, m) in files {
             if rng.chance(1, 3) {
-                write_file(&mut rng, f);
+                write_file(&mut rng, f, m);
             }
         }
         match rng.below(10) {
